@@ -576,7 +576,7 @@ fn run_alpha(t: &WinTrace, obs: &mut Obs) -> Result<(), Violation> {
     clock::install(CLOCK_BASE_MS);
     clock::set_tick_pattern(t.tick_pattern.clone());
     let spec = match t.kind {
-        Kind::AlphaSliding => Some(WindowSpec { duration: Duration::from_millis(d), window_type: WindowType::Sliding }),
+        Kind::AlphaSliding => Some(WindowSpec { duration: dur_of(d), window_type: WindowType::Sliding }),
         Kind::AlphaTumbling => Some(WindowSpec { duration: Duration::from_millis(d), window_type: WindowType::Tumbling }),
         _ => None,
     };
@@ -867,7 +867,7 @@ impl World for WindowWorld {
             }
         }
         // one continuously sliding window in 40 has a duration that means "no bound"
-        let duration_ms = if kind == Kind::Record && rng.chance(1, 40) { *rng.pick(&[u64::MAX, u64::MAX - 1]) } else { duration_ms };
+        let duration_ms = if matches!(kind, Kind::Record | Kind::AlphaSliding) && rng.chance(1, 40) { *rng.pick(&[u64::MAX, u64::MAX - 1]) } else { duration_ms };
         WinTrace { hash_seed, kind, duration_ms, cap, max_windows, events, tick_pattern }
     }
 
